@@ -15,6 +15,10 @@ JSON-lines driver for the constraints engine: one request per line on stdin, one
       -> {"codes":[…],"spec":bool} | {"raised":"OverflowError","spec":bool} | {"unsupported":"…"}
   {"op":"parse_eval","text":str,"value":pyval,"env":env}
       -> {"parse":"ValueError"} | {"chain":[constraint…],"codes":[…]|"raised":…,"spec":bool} | {"unsupported":…}
+  {"op":"grid","constraints":[constraint…],"values":[pyval…],"chains":[[index…]…],"env":env}
+      -> {"rows":["cell;cell;…" per chain]}   cell = <codes joined by ','>/<spec 0|1> | !<exception>/<spec> | ?
+  {"op":"parse_grid","texts":[str…],"values":[pyval…],"env":env}
+      -> {"rows":[{"p":"ValueError"} | {"u":why} | {"c":[constraint…],"r":"cell;cell;…"} per text]}
   {"op":"float_of_str","s":str} -> {"v":num} | {"err":"ValueError"}
   {"op":"int_of_str","s":str}   -> {"v":"<int>"} | {"err":"ValueError"}
   {"op":"float_of_int","i":"<int>"} -> {"v":num} | {"err":"OverflowError"}
@@ -27,6 +31,7 @@ JSON-lines driver for the constraints engine: one request per line on stdin, one
 `unsupported` is answered whenever the case leaves the modelled domain (never a guessed verdict).
 -/
 import Lean.Data.Json
+import Std.Data.HashMap
 import Octave.Model.Constraints
 import Octave.Model.Validator
 import Octave.Spec.Meaning
@@ -133,9 +138,9 @@ def jsonOfConstraint : Constraint → Json
 
 /-- externals supplied with the case -/
 structure Tables where
-  re : List (Str × Str × Bool)
-  reok : List (Str × Bool)
-  fr : List (Str × Str)
+  re : Std.HashMap (String × String) Bool
+  reok : Std.HashMap String Bool
+  fr : Std.HashMap String String
 
 def tablesOfJson (j : Json) : Except String Tables := do
   let env := (j.getObjVal? "env").toOption.getD (Json.mkObj [])
@@ -144,26 +149,22 @@ def tablesOfJson (j : Json) : Except String Tables := do
     let p ← (← e.getArrVal? 0).getStr?
     let s ← (← e.getArrVal? 1).getStr?
     let b ← (← e.getArrVal? 2).getBool?
-    pure (p.toList, s.toList, b)
+    pure ((p, s), b)
   let reok ← (arr "reok").toList.mapM fun e => do
     let p ← (← e.getArrVal? 0).getStr?
     let b ← (← e.getArrVal? 1).getBool?
-    pure (p.toList, b)
+    pure (p, b)
   let fr ← (arr "fr").toList.mapM fun e => do
     let s ← (← e.getArrVal? 0).getStr?
     let r ← (← e.getArrVal? 1).getStr?
-    pure (s.toList, r.toList)
-  pure ⟨re, reok, fr⟩
+    pure (s, r)
+  pure ⟨Std.HashMap.ofList re, Std.HashMap.ofList reok, Std.HashMap.ofList fr⟩
 
 def Tables.env (t : Tables) (assumeReOk : Bool := false) : Env where
-  reMatch p s := match t.re.find? (fun e => e.1 == p && e.2.1 == s) with
-    | some e => e.2.2
-    | none => false
-  reOk p := if assumeReOk then true else match t.reok.find? (fun e => e.1 == p) with
-    | some e => e.2
-    | none => false
-  floatRepr s := match t.fr.find? (fun e => e.1 == s) with
-    | some e => e.2
+  reMatch p s := (t.re.get? (String.ofList p, String.ofList s)).getD false
+  reOk p := if assumeReOk then true else (t.reok.get? (String.ofList p)).getD false
+  floatRepr s := match t.fr.get? (String.ofList s) with
+    | some r => r.toList
     | none => sentinel
 
 def hasSentinel (s : Str) : Bool := s.take 2 == ['\x00', '?']
@@ -185,7 +186,7 @@ def problem (t : Tables) (cs : List Constraint) (v : PyVal) : Option String :=
     match c with
     | .const w => valueProblem w false
     | .regex p =>
-      if !(t.re.any fun e => e.1 == p && e.2.1 == v.pyStr) then some "regex verdict not supplied" else none
+      if !(t.re.contains (String.ofList p, String.ofList v.pyStr)) then some "regex verdict not supplied" else none
     | .lang tag =>
       let zt := match v with | .zone _ (some zt) _ => zt | _ => []
       if (tag ++ zt).any (fun c => c.toNat ≥ 128) then some "non-ASCII lower()" else none
@@ -198,8 +199,14 @@ def problem (t : Tables) (cs : List Constraint) (v : PyVal) : Option String :=
     | .enum a => if a.any hasSentinel then some "float repr not supplied" else none
     | _ => none
 
+/-- structure-level problems of a parsed chain (independent of the value) -/
+def chainProblem (cs : List Constraint) : Option String :=
+  cs.findSome? fun c => match c with
+    | .lang tag => if tag.any (fun c => c.toNat ≥ 128) then some "non-ASCII lower()" else none
+    | _ => none
+
 def resultFields (env : Env) (cs : List Constraint) (v : PyVal) : List (String × Json) :=
-  let spec : Json := toJson (Spec.chainAccepts env cs v)
+  let spec : Json := toJson (decide (Spec.chainAccepts env cs v))
   match evalChain env cs v with
   | .errors codes => [("codes", toJson codes), ("spec", spec)]
   | .raised x => [("raised", x), ("spec", spec)]
@@ -217,6 +224,54 @@ def handle (j : Json) : Json :=
       match problem t cs v with
       | some why => pure (unsupported why)
       | none => pure (Json.mkObj (resultFields t.env cs v))
+    | "grid" =>
+      -- pools once, then chains as index lists; one compact row per chain: cells joined by ';',
+      -- a cell is  <codes joined by ','>|!<exception>|?   followed by  /1 or /0  (Spec.chainAccepts)
+      let pool ← (← j.getObjValAs? (Array Json) "constraints").mapM constraintOfJson
+      let vals ← (← j.getObjValAs? (Array Json) "values").mapM pyValOfJson
+      let t ← tablesOfJson j
+      let env := t.env
+      let chains ← j.getObjValAs? (Array (Array Nat)) "chains"
+      let rows := chains.map fun idx =>
+        let cs := idx.toList.filterMap fun i => pool[i]?
+        let cells := vals.toList.map fun v =>
+          match problem t cs v with
+          | some _ => "?"
+          | none =>
+            let spec := if decide (Spec.chainAccepts env cs v) then "/1" else "/0"
+            match evalChain env cs v with
+            | .errors codes => ",".intercalate codes ++ spec
+            | .raised x => "!" ++ x ++ spec
+        Json.str (";".intercalate cells)
+      pure (Json.mkObj [("rows", Json.arr rows)])
+    | "parse_grid" =>
+      -- texts x values; one row per text: {"p":"ValueError"} | {"u":why} | {"c":[constraint…],"r":"<cells>"}
+      let texts ← j.getObjValAs? (Array String) "texts"
+      let vals ← (← j.getObjValAs? (Array Json) "values").mapM pyValOfJson
+      let t ← tablesOfJson j
+      let env := t.env
+      let rows := texts.map fun text =>
+        match parseChain (t.env true) text.toList with
+        | none => Json.mkObj [("p", "ValueError")]
+        | some cs0 =>
+          let missing := cs0.any fun c => match c with
+            | .regex p => !(t.reok.contains (String.ofList p))
+            | _ => false
+          if missing then Json.mkObj [("u", "regex validity not supplied")]
+          else match parseChain env text.toList with
+            | none => Json.mkObj [("p", "ValueError")]
+            | some cs =>
+              if let some why := chainProblem cs then Json.mkObj [("u", why)] else
+              let cells := vals.toList.map fun v =>
+                match problem t cs v with
+                | some _ => "?"
+                | none =>
+                  let spec := if decide (Spec.chainAccepts env cs v) then "/1" else "/0"
+                  match evalChain env cs v with
+                  | .errors codes => ",".intercalate codes ++ spec
+                  | .raised x => "!" ++ x ++ spec
+              Json.mkObj [("c", Json.arr (cs.map jsonOfConstraint).toArray), ("r", ";".intercalate cells)]
+      pure (Json.mkObj [("rows", Json.arr rows)])
     | "parse_eval" =>
       let text ← j.getObjValAs? String "text"
       let v ← pyValOfJson (← j.getObjVal? "value")
@@ -226,7 +281,7 @@ def handle (j : Json) : Json :=
       | none => pure (Json.mkObj [("parse", "ValueError")])
       | some cs0 =>
         let missing := cs0.any fun c => match c with
-          | .regex p => !(t.reok.any fun e => e.1 == p)
+          | .regex p => !(t.reok.contains (String.ofList p))
           | _ => false
         if missing then pure (unsupported "regex validity not supplied")
         else match parseChain t.env text.toList with
